@@ -289,6 +289,10 @@ let run_case (toks : string list) : string =
          { ws_img = bytes_of_hex pre; ws_pos = n_of_hex pos; ws_log = [] })
   | ["rdirs"; _mode; c; ro; rl; lo; rg; img] ->
     out_str tiles_tok (read_directories cx (comp_of_tok c) (bytes_of_hex img) (n_of_hex ro) (n_of_hex rl) (n_of_hex lo) (range_of_tok rg))
+  | ["slook"; c; ro; rl; lo; id; img] ->
+    (* the specification's lookup procedure (SpecLookup.v), at most 3 levels of leaves below the root *)
+    out_str (fun r -> match r with None -> "none" | Some (o, l) -> hex_of_n o ^ ":" ^ hex_of_n l)
+      (spec_lookup cx (comp_of_tok c) (bytes_of_hex img) (n_of_hex lo) (nat_of_int 4) (n_of_hex ro) (n_of_hex rl) (n_of_hex id))
   | ["io_read_exact"; _mode; n; pos; sched; img] ->
     let nn = n_of_hex n in
     out_str (fun (b, s') -> hex_of_bytes b ^ " " ^ hex_of_n s'.rd_pos)
